@@ -218,6 +218,11 @@ class HttpPeer:
                 pipe.server_close(hidden=True)
             else:
                 pipe.server_close()
+        elif plan.get("idle_close"):
+            # the server ends the keep-alive connection right after a complete, properly framed response without announcing it
+            # (an idle timeout on the server side): the client can only notice through the socket
+            ex["idle_closed"] = True
+            pipe.server_close()
 
     def _respond_connect(self, ex):
         pipe = self.pipe
